@@ -3,6 +3,7 @@ Oracle ops for the `flags` and `opts` families (C19).
 -/
 import JsonV.Oracle.Util
 import JsonV.Model.Opts
+import JsonV.Model.Scope
 
 namespace JsonV.Oracle.Flags
 open JsonV JsonV.Model JsonV.Oracle
@@ -79,7 +80,121 @@ def parseKey : List String → Option (Key × List String)
   | "U" :: r => some (.unmarshalers, r)
   | _ => none
 
+/-! ### scope ops (C19 "scoped") -/
+open JsonV.Model.Scope in
+/-- Callee trees in prefix form: `K` skip, `F <fatal>`, `C <t|s|f>`, `Q a b`, `U body`,
+`M <marshal> <string> <formathex> body`, `L <marshal> <needName> <n> <n options> body`. -/
+def parseAct : Nat → List String → Option (Act × List String)
+  | 0, _ => none
+  | fuel+1, toks =>
+    match toks with
+    | "K" :: r => some (.skip, r)
+    | "F" :: f :: r => some (.fail (f == "1"), r)
+    | "C" :: "t" :: r => some (.clear .tags, r)
+    | "C" :: "s" :: r => some (.clear .string, r)
+    | "C" :: "f" :: r => some (.clear .format, r)
+    | "Q" :: r =>
+      match parseAct fuel r with
+      | some (a, r1) => match parseAct fuel r1 with
+        | some (b, r2) => some (.seq a b, r2)
+        | none => none
+      | none => none
+    | "U" :: r => (parseAct fuel r).map (fun (a, r1) => (.user a, r1))
+    | "M" :: mar :: str :: fmt :: r =>
+      match bytesOfHex fmt, parseAct fuel r with
+      | some f, some (a, r1) => some (.member (mar == "1") (str == "1") f a, r1)
+      | _, _ => none
+    | "L" :: mar :: nn :: n :: r =>
+      match n.toNat? with
+      | some n => match parseOpts (r.length + 2) r n with
+        | some (os, r1) => (parseAct fuel r1).map (fun (a, r2) => (.call (mar == "1") os (nn == "1") a, r2))
+        | none => none
+      | none => none
+    | _ => none
+
+def showOutcome : Scope.Outcome → String
+  | .ok => "ok"
+  | .err true => "errF"
+  | .err false => "errN"
+
+def parseStruct (toks : List String) : Option (Struct × List String) :=
+  match parseOpts 4 ("X" :: toks) 1 with
+  | some ([.struct s], r) => some (s, r)
+  | _ => none
+
+open JsonV.Model.Scope in
+/-- `at`: the struct a callee sees after a path of `J <marshal> <g> <n> <options>` (call entry), `m <string> <format>`
+(struct member), `c <t|s|f>` (clear), `u` (user call), `Z <marshal> <g> <n> <options>` (pooled entry point). -/
+def walk : Nat → Struct → List String → Option Struct
+  | 0, _, _ => none
+  | _, s, [] => some s
+  | fuel+1, s, "J" :: mar :: g :: n :: r =>
+    match n.toNat? with
+    | some n => match parseOpts (r.length + 2) r n with
+      | some (os, r1) =>
+        let o := callOpts (g == "1") os
+        walk fuel (if o.isEmpty then s else if mar == "1" then enterMarshal o s else enterUnmarshal o s) r1
+      | none => none
+    | none => none
+  | fuel+1, _, "Z" :: mar :: g :: n :: r =>   -- json.Marshal / json.Unmarshal: pooled coder reset with the call options
+    match n.toNat? with
+    | some n => match parseOpts (r.length + 2) r n with
+      | some (os, r1) => walk fuel (enterPooled (g == "1") (mar == "1") os) r1
+      | none => none
+    | none => none
+  | fuel+1, s, "m" :: str :: fmt :: r =>
+    match bytesOfHex fmt with
+    | some f => walk fuel (tagged (str == "1") f s) r
+    | none => none
+  | fuel+1, s, "c" :: k :: r =>
+    let w := if k == "t" then ClearKind.tags else if k == "s" then ClearKind.string else ClearKind.format
+    walk fuel { s with flags := s.flags.clear w.word } r
+  | fuel+1, s, "u" :: r =>
+    walk fuel { s with flags := s.flags.set (bv (JsonV.Gen.jsonflags.c_WithinArshalCall + 1)) } r
+  | _, _, _ => none
+
+open JsonV.Model.Scope in
+def handleScope (op : String) (args : List String) : Option String :=
+  match op, args with
+  | "exec", g :: rest =>
+    match parseStruct rest with
+    | some (s, r) => match parseAct (r.length + 2) r with
+      | some (a, []) => let res := exec (g == "1") a s; some s!"{showStruct res.1} {showOutcome res.2}"
+      | _ => none
+    | none => none
+  | "at", rest =>
+    match parseStruct rest with
+    | some (s, r) => (walk (r.length + 2) s r).map showStruct
+    | none => none
+  | "newcoder", enc :: n :: rest =>
+    match n.toNat? with
+    | some n => match parseOpts (rest.length + 2) rest n with
+      | some (os, []) => some (showStruct (newCoder (enc == "1") os))
+      | _ => none
+    | none => none
+  | "pooled", g :: mar :: n :: rest =>
+    match n.toNat? with
+    | some n => match parseOpts (rest.length + 2) rest n with
+      | some (os, []) => some (showStruct (enterPooled (g == "1") (mar == "1") os))
+      | _ => none
+    | none => none
+  | "guards", g :: nn :: rest =>
+    match parseStruct rest with
+    | some (s, n :: r) =>
+      match n.toNat? with
+      | some n => match parseOpts (r.length + 2) r n with
+        | some (os, []) =>
+          let o := callOpts (g == "1") os
+          some s!"{boolStr (nameGuardFails (nn == "1") s (s.join o))} {boolStr (wsGuardFails o s)}"
+        | _ => none
+      | none => none
+    | _ => none
+  | _, _ => none
+
 def handleOpts (op : String) (args : List String) : String :=
+  if op == "exec" || op == "at" || op == "newcoder" || op == "pooled" || op == "guards" then
+    (handleScope op args).getD badArgs
+  else
   match op, args with
   | "join", n :: rest =>
     match n.toNat? with
